@@ -29,6 +29,7 @@ fn core_opts(faults: bool) -> Opts {
         division: true,
         faults,
         jumps_out: false,
+        relayout: true,
     }
 }
 
@@ -114,6 +115,15 @@ fn main() {
             None => outside += 1,
         }
     }
+    let n_grid = if rep.is_thorough() { 400 } else { 40 };
+    for _ in 0..n_grid {
+        let text = rb_harness::gen_prog::grid(&mut rng);
+        match core_ast(&text) {
+            Some(ast) => cases.push(Case { text, ast, feats: "grid".into() }),
+            None => outside += 1,
+        }
+    }
+    rep.bump_by("generated.grid", n_grid as u64);
     rep.bump_by("generated.outside-core-or-rejected", outside);
     // every program runs once on the real implementation (in parallel threads), results are shared by the comparisons
     let reals: Vec<Observed> = {
